@@ -1,5 +1,10 @@
 # property id -> claim text (filled as checks are admitted; everything else is listed under NA with the reason)
 CLAIMS = {
+ 'C08': {'technique': 'static analysis: cross-implementation table agreement (constants from macro/enum/variable/Python-ast records; payload shapes by symbolic evaluation of the C++ and C serialisers and by Python ast; header, byte order, frame)',
+         'text': 'Decides, as tables, that the four codecs shipped in the repository (C++, C mini, C micro header, Python) and the documented layout agree: equal protocol/encoding/type-code constants, the documented '
+                 'per-type payload shape in every implementation (size function, writer and reader sides), the three header words and their sources, little-endian discipline, and the 8-byte stream frame. '
+                 'It is the static analogue of an independent decoder: a change made consistently on both C++ sides still disagrees with the other tables. Value-level decode equality is not decided.',
+         'note': 'The documented table is transcribed once in rules/C08.py; the csharp/java/delphi/python2 ports are out of scope.'},
  'C03': {'technique': 'static analysis: data-dependence of cursor/budget updates on the returned transfer count (per call site, dominance-scoped), guard dominance for delivery, frame-offset table agreement',
          'text': 'Decides the short-transfer discipline that every segmentation relies on: at each of the transfer sites whose buffer argument is base+cursor (C++ stream gateways and both C gateways) the result is '
                  'kept and every dominated update of the cursor / caller budget is computed from the returned count, never from the requested size; the stream branch hands a Message up only when the cursor reached '
@@ -94,6 +99,6 @@ CLAIMS = {
          'note': 'Assumes const methods with by-value/const-ref parameters do not change what loop tests read; logging and destructor hubs are cut from the recursion graph.'},
 }
 _PENDING = 'check under construction in this session (see DESIGN.md section 4); not claimed until its rule is admitted'
-NA = {pid: _PENDING for pid in ['C08']}
+NA = {}
 NA['C09'] = ('refinement of an ideal ordered map over operation histories with live iterators: its mechanisms are co-located with the mutations they protect inside single template functions; '
              'no sound structural necessary condition was found that is not either compiler-enforced or a frozen-fragment match (DESIGN.md section 4, C09)')
